@@ -155,7 +155,15 @@ func dominatesInstr(a, b ssa.Instruction) bool {
 
 // heldAt: is the lock of `base` held at instruction at in fn (criteria 1)?
 func heldAt(fn *ssa.Function, g guarded, base ssa.Value, at ssa.Instruction) bool {
+	h, _ := heldKind(fn, g, base, at)
+	return h
+}
+
+// heldKind also reports whether the lock held is exclusive (Lock) rather than
+// shared (RLock).
+func heldKind(fn *ssa.Function, g guarded, base ssa.Value, at ssa.Instruction) (held, exclusive bool) {
 	var locks, unlocks []ssa.Instruction
+	kind := map[ssa.Instruction]string{}
 	for _, b := range fn.Blocks {
 		for _, in := range b.Instrs {
 			ci, ok := in.(ssa.CallInstruction)
@@ -172,19 +180,24 @@ func heldAt(fn *ssa.Function, g guarded, base ssa.Value, at ssa.Instruction) boo
 			switch op {
 			case "Lock", "RLock":
 				locks = append(locks, in)
+				kind[in] = op
 			case "Unlock", "RUnlock":
 				unlocks = append(unlocks, in)
 			}
 		}
 	}
 	dominated := false
+	exclusive = true
 	for _, l := range locks {
 		if dominatesInstr(l, at) && l != at {
 			dominated = true
+			if kind[l] == "RLock" {
+				exclusive = false
+			}
 		}
 	}
 	if !dominated {
-		return false
+		return false, false
 	}
 	for _, u := range unlocks {
 		if instrReaches(u, at) {
@@ -197,11 +210,78 @@ func heldAt(fn *ssa.Function, g guarded, base ssa.Value, at ssa.Instruction) boo
 				}
 			}
 			if !relocked {
-				return false
+				return false, false
 			}
 		}
 	}
-	return true
+	return true, exclusive
+}
+
+// accessIsWrite: is the field reached through fa written (stored to, map-
+// updated, or passed to a callee that writes through it)?
+func accessIsWrite(m *Mod, fn *ssa.Function, fa ssa.Value, depth int) bool {
+	refs := fa.Referrers()
+	if refs == nil || depth > 3 {
+		return false
+	}
+	for _, r := range *refs {
+		switch x := r.(type) {
+		case *ssa.Store:
+			if x.Addr == fa {
+				return true
+			}
+		case *ssa.MapUpdate:
+			if x.Map == fa {
+				return true
+			}
+		case *ssa.UnOp:
+			// a map / pointer loaded from the field and then written through
+			if x.Op == token.MUL && accessIsWrite(m, fn, x, depth+1) {
+				return true
+			}
+		case *ssa.FieldAddr, *ssa.IndexAddr:
+			if accessIsWrite(m, fn, x.(ssa.Value), depth+1) {
+				return true
+			}
+		case ssa.CallInstruction:
+			c := x.Common()
+			if bi, ok := c.Value.(*ssa.Builtin); ok {
+				if (bi.Name() == "delete" || bi.Name() == "copy" || bi.Name() == "clear") && len(c.Args) > 0 && c.Args[0] == fa {
+					return true
+				}
+				continue
+			}
+			args := c.Args
+			if c.IsInvoke() {
+				args = append([]ssa.Value{c.Value}, c.Args...)
+			}
+			idx := -1
+			for i, a := range args {
+				if a == fa {
+					idx = i
+				}
+			}
+			if idx < 0 {
+				continue
+			}
+			if callee := c.StaticCallee(); callee != nil {
+				if sum := m.Sum[callee]; sum != nil {
+					if sum.Writes[idx] {
+						return true
+					}
+					continue
+				}
+				for _, wi := range ExternalWrites(callee.String(), args, callee.Signature.Recv() != nil) {
+					if wi == idx {
+						return true
+					}
+				}
+				continue
+			}
+			return true // unknown callee: assume it writes
+		}
+	}
+	return false
 }
 
 // LockStats counts what was checked.
@@ -211,7 +291,7 @@ type LockStats struct {
 }
 
 // CheckLocks runs the lock-discipline rules.
-func CheckLocks(p *load.Program, access, atomic, double *report.Rule) LockStats {
+func CheckLocks(p *load.Program, m *Mod, access, atomic, double *report.Rule) LockStats {
 	var st LockStats
 	gts := guardedTypes(p)
 	st.Types = len(gts)
@@ -219,8 +299,9 @@ func CheckLocks(p *load.Program, access, atomic, double *report.Rule) LockStats 
 	for _, g := range gts {
 		st.TypeNames = append(st.TypeNames, load.Rel(g.named.Obj().Pkg())+"."+g.named.Obj().Name())
 		// (2) helper functions: every call site holds the lock on the argument
-		var lockedCtx func(fn *ssa.Function, prm int, depth int) bool
-		lockedCtx = func(fn *ssa.Function, prm int, depth int) bool {
+		var lockedCtxK func(fn *ssa.Function, prm int, depth int, needExcl bool) bool
+		lockedCtx := func(fn *ssa.Function, prm int, depth int) bool { return lockedCtxK(fn, prm, depth, false) }
+		lockedCtxK = func(fn *ssa.Function, prm int, depth int, needExcl bool) bool {
 			if depth > 3 {
 				return false
 			}
@@ -244,13 +325,13 @@ func CheckLocks(p *load.Program, access, atomic, double *report.Rule) LockStats 
 					return false
 				}
 				base := args[prm]
-				if heldAt(caller, g, base, e.Site) {
+				if h, ex := heldKind(caller, g, base, e.Site); h && (ex || !needExcl) {
 					continue
 				}
 				// the caller is itself a locked-context helper on the same object
 				ok := false
 				for i, cp := range caller.Params {
-					if cp == base && lockedCtx(caller, i, depth+1) {
+					if cp == base && lockedCtxK(caller, i, depth+1, needExcl) {
 						ok = true
 					}
 				}
@@ -280,18 +361,25 @@ func CheckLocks(p *load.Program, access, atomic, double *report.Rule) LockStats 
 					fieldName := g.named.Underlying().(*types.Struct).Field(fa.Field).Name()
 					okAccess := false
 					why := ""
+					isWrite := accessIsWrite(m, fn, fa, 0)
+					held, excl := heldKind(fn, g, base, in)
 					switch {
-					case heldAt(fn, g, base, in):
+					case held && (excl || !isWrite):
 						okAccess = true
+					case held && isWrite:
+						why = "the field is WRITTEN while only the shared (read) lock is held: concurrent readers race on it"
 					case isFreshAlloc(base):
 						okAccess = true // constructor: the object has not escaped yet
 					default:
 						for i, prm := range fn.Params {
-							if prm == base && lockedCtx(fn, i, 0) {
+							if prm == base && lockedCtxK(fn, i, 0, isWrite) {
 								okAccess = true
 							}
 						}
 						why = "no Lock on the same object dominates the access, the object is not freshly allocated here, and not every caller holds the lock"
+						if isWrite {
+							why = "the field is written; no exclusive Lock on the same object dominates the access, the object is not freshly allocated here, and not every caller holds the exclusive lock"
+						}
 					}
 					if okAccess {
 						access.OK(name)
